@@ -2,6 +2,7 @@ package sim
 
 import (
 	"bytes"
+	"encoding/json"
 	"fmt"
 	"strings"
 	"testing"
@@ -10,6 +11,7 @@ import (
 
 	"verifharness/gen"
 	"verifharness/prng"
+	"verifharness/simio"
 )
 
 // C16: same input, same outcome.
@@ -139,9 +141,18 @@ func (c16) Gen(seed uint64, idx int, tier string) *Scenario {
 		sc.SetStr("target", kind)
 		sc.Src = []byte(orderSource(r, kind))
 	} else {
-		class := prng.Pick(r, []string{"valid", "valid", "valid", "syntax-early", "syntax-late", "lex-late", "many-errors", "soup", "raw"})
+		class := prng.Pick(r, []string{"valid", "valid", "valid", "runtime-error", "runtime-error", "syntax-early", "syntax-late", "lex-late", "many-errors", "soup", "raw"})
 		sc.Class = class
-		sc.Src, _, _ = genInput(r, class, tier)
+		if class == "runtime-error" {
+			// fails at run time with locals on the stack and, for some plants, a block still open
+			cfg := gen.DefaultCfg(r)
+			cfg.Safe = true
+			p := gen.Generate(r, cfg)
+			gen.AddPlant(r, p, prng.Pick(r, gen.RuntimePlants), cfg)
+			sc.Src = p.Src
+		} else {
+			sc.Src, _, _ = genInput(r, class, tier)
+		}
 		sc.SetStr("target", "generic")
 	}
 	kind := prng.Pick(r, []string{"whole", "geometric", "fixed", "twocut", "zeros", "eofdata"})
@@ -152,6 +163,15 @@ func (c16) Gen(seed uint64, idx int, tier string) *Scenario {
 	}
 	if kind == "eofdata" {
 		sc.Reads = MarkEOF(sc.Reads, len(sc.Src))
+	}
+	if r.Chance(1, 4) {
+		// a read error somewhere: the outcome must still be one fixed function of input and script
+		at := r.Intn(len(sc.Reads) + 1)
+		for len(sc.Reads) <= at {
+			sc.Reads = append(sc.Reads, simio.ReadStep{})
+		}
+		sc.Reads[at] = simio.ReadStep{Err: true, N: prng.Pick(r, []int{0, 0, 5})}
+		sc.Reads = sc.Reads[:at+1]
 	}
 	sc.GateRead, sc.GateLog, sc.GateClose, sc.GateName = true, true, true, r.Chance(1, 2)
 	sc.SetInt("reps", 32)
@@ -253,10 +273,20 @@ func (c16) Run(t *testing.T, sc *Scenario) *Outcome {
 	// (a) the file pipeline under different gate schedules
 	var first *PipeResult
 	var firstDump []byte
-	for k := 0; k < 4; k++ {
+	nsched := 4
+	var alt []int
+	if sc.Replay {
+		// a replay file carries the two concrete schedules that disagreed
+		nsched = 2
+		json.Unmarshal([]byte(sc.Str("alt_choices")), &alt)
+	}
+	for k := 0; k < nsched; k++ {
 		s2 := sc.Clone()
 		s2.Bias = Biases[(k*3+sc.Idx)%len(Biases)]
 		s2.Idx = sc.Idx*8 + k // different schedule seed, same input and script
+		if sc.Replay && k == 1 {
+			s2.Choices = alt
+		}
 		res := RunPipe(t, s2, false, false)
 		o.Steps += res.Steps
 		o.Evals++
@@ -283,9 +313,11 @@ func (c16) Run(t *testing.T, sc *Scenario) *Outcome {
 			diffs = append(diffs, "compiled program: "+firstDiff(dump, firstDump))
 		}
 		if len(diffs) > 0 {
-			c := s2.Clone()
-			c.Choices = append([]int{}, res.Choices...)
+			c := sc.Clone()
+			c.Choices = append([]int{}, first.Choices...)
 			c.Replay = true
+			ab, _ := json.Marshal(res.Choices)
+			c.SetStr("alt_choices", string(ab))
 			o.viol("C16", "schedule-dependent", "ParseFile outcome depends on the goroutine schedule",
 				fmt.Sprintf("schedule %v vs schedule %v: %s", headInts(res.Choices, 20), headInts(first.Choices, 20), strings.Join(diffs, "; ")), c)
 			break
